@@ -17,7 +17,7 @@ Your task: produce ONE realistic source change (a "seeded defect") to the mistra
 
 Deliverables, all written under /tmp/wt-{pid}/_seeded/ :
   - patch.diff : `git diff` of your change against HEAD (source change only, no tests), applicable with `git apply` at the repository root.
-  - demo.py (or demo_test.py): a self-contained demonstration — a small program or test using the repository's own test infrastructure (e.g. subclassing mistral.tests.unit.engine.base.EngineTestCase or plain unit-level calls with mocks) — that FAILS (non-zero exit / failing assertion) with your change applied and PASSES on the unmodified code. Say exactly how to run it from the worktree root (e.g. `/venv/bin/python -m pytest -q -p no:cacheprovider _seeded/demo_test.py`). Verify both directions yourself (use `git stash` / `git apply -R` to test without the change, then re-apply).
+  - demo.py (or demo_test.py): a self-contained demonstration — a small program or test using the repository's own test infrastructure (e.g. subclassing mistral.tests.unit.engine.base.EngineTestCase or plain unit-level calls with mocks) — that FAILS (non-zero exit / failing assertion) with your change applied and PASSES on the unmodified code. Say exactly how to run it from the worktree root (e.g. `/venv/bin/python -m pytest -q -p no:cacheprovider _seeded/demo_test.py`). Verify both directions yourself (use `git diff > _seeded/patch.diff; git apply -R _seeded/patch.diff` to test without the change, then `git apply _seeded/patch.diff` to re-apply; NEVER use `git stash`: the stash is shared between worktrees).
   - meta.json : {{"property": "{pid}", "summary": "...what the change does...", "needs": "...what specific circumstance is needed for it to manifest...", "files": [...], "demo_cmd": "...", "tests_run": "...which test subsets you ran and their result..."}}
 
 Environment notes: no network; Python is /venv/bin/python; pytest is available there; the tests use in-memory sqlite. Unit tests write a mistral.log file in the cwd — ignore it, and do not include it in the patch. Keep the worktree's source change applied when you finish (the deliverables describe it). In your final answer, summarise the change, what it needs to manifest, and the results of running demo with/without the change and the test subsets.""")
